@@ -319,8 +319,42 @@ def check(prop, tier, seed, selected, build_dir, workdir, args, t_start):
             else:
                 inconclusive.append("%s: counterexample for '%s' did not reproduce natively (%s)" % (h, desc, out_txt.strip()[-400:]))
 
+    # ---- E2: arithmetic lemmas over the MIR of the integer kernels (DESIGN.md section 6)
+    e2_results, e2_info = [], {}
+    if prop in R.E2_PROPS:
+        import e2
+        try:
+            if "debug" not in replay_bin or not replay_bin["debug"]:
+                replay_bin["debug"] = build_replay(build_dir, metas, "debug")
+            e2_results, e2_info = e2.run_lemmas(build_dir, [prop], timeout=120, binary=replay_bin["debug"], seed=seed)
+        except Exception as e:
+            inconclusive.append("E2: %s" % str(e)[-500:])
+        if e2_info.get("mismatches"):
+            inconclusive.append("E2: MIR->SMT translation disagrees with the native functions on %s" % str(e2_info["mismatches"][:3]))
+        for r in e2_results:
+            log("  E2 %-4s %-12s %s %s" % (r["id"], r["status"], r.get("verdicts", ""), r.get("detail", "")))
+            if r["status"] == "inconclusive":
+                inconclusive.append("E2 %s: %s" % (r["id"], r.get("detail", r.get("verdicts"))))
+            elif r["status"] == "fails":
+                desc = "E2 lemma %s fails: %s" % (r["id"], r["statement"])
+                if r.get("expected_sat"):
+                    side.append(dict(harness="E2-" + r["id"], prop=prop, desc=desc + " model=%s" % r.get("model"), where="src/countedindex.rs", replay=None))
+                    continue
+                os.makedirs(os.path.join(REPLAY_DIR, prop), exist_ok=True)
+                rep_path = os.path.join(REPLAY_DIR, prop, "E2-%s.json" % r["id"])
+                json.dump(dict(kind="E2", lemma=r["id"], property=prop, statement=r["statement"], model=r.get("model"), replay=r.get("replay")),
+                          open(rep_path, "w"), indent=1)
+                item = dict(harness="E2-" + r["id"], prop=prop, desc=desc, where="MIR of " + ",".join(r["functions"]), replay=rep_path, reproduced=True)
+                kf = match_known(known, prop, "E2-" + r["id"], desc)
+                if kf:
+                    known_hits.append((kf, item))
+                else:
+                    violations.append(item)
+            elif r["status"] == "holds":
+                nontrivial += 1
+
     wall = time.time() - t_start
-    write_evidence(prop, tier, seed, selected, results, violations, known_hits, inconclusive, side, nontrivial, wall, t_codegen_s=None)
+    write_evidence(prop, tier, seed, selected, results, violations, known_hits, inconclusive, side, nontrivial, wall, e2_results, e2_info)
 
     for (kf, item) in known_hits:
         log("KNOWN-FINDING: property=%s %s [harness %s: %s]" % (kf["prop"], kf["what"], item["harness"], item["desc"]))
@@ -339,7 +373,7 @@ def check(prop, tier, seed, selected, build_dir, workdir, args, t_start):
     return 0
 
 
-def write_evidence(prop, tier, seed, selected, results, violations, known_hits, inconclusive, side, nontrivial, wall, t_codegen_s):
+def write_evidence(prop, tier, seed, selected, results, violations, known_hits, inconclusive, side, nontrivial, wall, e2_results=None, e2_info=None):
     os.makedirs(EVIDENCE_DIR, exist_ok=True)
     evaluations = 0
     steps = 0
@@ -370,6 +404,13 @@ def write_evidence(prop, tier, seed, selected, results, violations, known_hits, 
             witnesses_satisfied=c.get("cover_sat", []), witnesses_unsatisfied=c.get("cover_unsat", []),
             ssa_steps=st.get("steps"), clauses=st.get("clauses"), symex_s=st.get("symex_s"), solver_s=st.get("solver_s"),
             wall_s=round(r.get("wall_s", 0.0), 1)))
+    e2_results = e2_results or []
+    e2_info = e2_info or {}
+    for r in e2_results:
+        evaluations += len(r.get("verdicts", {})) + 1
+        samples.append(dict(lemma=r["id"], engine="E2 MIR->SMT-LIB2 (z3 + cvc5, 64-bit bit-vectors)", statement=r.get("statement"),
+                            functions=r.get("functions"), verdicts=r.get("verdicts"), status=r["status"], solver_s=r.get("solver_s"),
+                            model=r.get("model"), replay=r.get("replay"), precondition_satisfiable=r.get("precondition_satisfiable")))
     ev = dict(
         property_id=prop, tier=tier, seed=seed, level="model_checking",
         coverage=dict(
@@ -386,6 +427,8 @@ def write_evidence(prop, tier, seed, selected, results, violations, known_hits, 
             functions_with_bounded_loops=sorted(functions),
             ssa_steps=steps, clauses=clauses, symex_s=round(symex_s, 1), solver_s=round(solver_s, 1),
             inconclusive=inconclusive[:20],
+            e2=dict(lemmas=len(e2_results), translator_validation_inputs=e2_info.get("validated", 0),
+                    translator_mismatches=len(e2_info.get("mismatches", [])), functions=e2_info.get("functions", [])),
             side_findings=[dict(harness=s["harness"], desc=s["desc"], where=s["where"]) for s in side],
             known_findings=[dict(harness=i["harness"], desc=i["desc"], what=k["what"]) for (k, i) in known_hits],
             traces_validated_against_impl=sum(1 for v in violations if v.get("reproduced")) + sum(1 for (_k, i) in known_hits if i.get("reproduced")),
